@@ -75,16 +75,104 @@ def t_annassign(fn):
     fn.body = rec(fn.body)
     return done
 
+def _own_stmts(fn):
+    """statement lists of fn, not descending into nested defs"""
+    out = []
+    def rec(node):
+        for fld in ("body", "orelse", "finalbody"):
+            b = getattr(node, fld, None)
+            if isinstance(b, list) and b and isinstance(b[0], ast.stmt):
+                out.append(b)
+                for st in b:
+                    if not isinstance(st, (ast.FunctionDef, ast.AsyncFunctionDef, ast.ClassDef)):
+                        rec(st)
+        for h in getattr(node, "handlers", []) or []:
+            out.append(h.body)
+            for st in h.body:
+                rec(st)
+    rec(fn)
+    return out
+
+def t_invert(fn):
+    """if c: A else: B  ->  if not c: B else: A   (first if/else with a real else)"""
+    for b in _own_stmts(fn):
+        for st in b:
+            if isinstance(st, ast.If) and st.orelse and not (len(st.orelse) == 1 and isinstance(st.orelse[0], ast.If)):
+                st.test = st.test.operand if isinstance(st.test, ast.UnaryOp) and isinstance(st.test.op, ast.Not) else ast.UnaryOp(op=ast.Not(), operand=st.test)
+                st.body, st.orelse = st.orelse, st.body
+                return True
+    return False
+
+def t_ifexp(fn):
+    """x = a if c else b  ->  if c: x = a else: x = b"""
+    for b in _own_stmts(fn):
+        for i, st in enumerate(b):
+            if isinstance(st, ast.Assign) and len(st.targets) == 1 and isinstance(st.targets[0], ast.Name) and isinstance(st.value, ast.IfExp):
+                v = st.value
+                b[i] = ast.If(test=v.test, body=[ast.Assign(targets=[st.targets[0]], value=v.body, lineno=st.lineno)],
+                              orelse=[ast.Assign(targets=[ast.Name(id=st.targets[0].id, ctx=ast.Store())], value=v.orelse, lineno=st.lineno)])
+                return True
+    return False
+
+def t_splitand(fn):
+    """if a and b: X (no else)  ->  if a: if b: X"""
+    for b in _own_stmts(fn):
+        for st in b:
+            if isinstance(st, ast.If) and not st.orelse and isinstance(st.test, ast.BoolOp) and isinstance(st.test.op, ast.And) and len(st.test.values) == 2:
+                a, c = st.test.values
+                st.test = a
+                st.body = [ast.If(test=c, body=st.body, orelse=[])]
+                return True
+    return False
+
+def t_guard(fn):
+    """if c: BODY (last statement of the function, no else, function returns None)  ->  if not c: return ; BODY"""
+    if any(isinstance(n, ast.Return) and n.value is not None for n in ast.walk(fn)) or any(isinstance(n, (ast.Yield, ast.YieldFrom)) for n in ast.walk(fn)):
+        return False
+    st = fn.body[-1]
+    if isinstance(st, ast.If) and not st.orelse and len(fn.body) >= 1:
+        neg = st.test.operand if isinstance(st.test, ast.UnaryOp) and isinstance(st.test.op, ast.Not) else ast.UnaryOp(op=ast.Not(), operand=st.test)
+        fn.body[-1:] = [ast.If(test=neg, body=[ast.Return(value=None)], orelse=[])] + st.body
+        return True
+    return False
+
+def t_kwonly_call(fn):
+    """self.method(a, b) -> unchanged args but the LAST positional argument of the first call to a same-module function is
+    passed by keyword (needs the callee's parameter name: resolved through SIGS filled by the driver)"""
+    for n in ast.walk(fn):
+        if isinstance(n, ast.Call) and n.args and not any(isinstance(a, ast.Starred) for a in n.args):
+            name = n.func.attr if isinstance(n.func, ast.Attribute) and isinstance(n.func.value, ast.Name) and n.func.value.id == "self" else n.func.id if isinstance(n.func, ast.Name) else None
+            sig = SIGS.get(name)
+            if not sig or len(sig) != 1:
+                continue
+            params = list(sig)[0]
+            if isinstance(n.func, ast.Attribute):
+                params = params[1:] if params and params[0] in ("self", "cls") else params
+            if len(n.args) <= len(params) and params[len(n.args) - 1] not in [k.arg for k in n.keywords]:
+                pname = params[len(n.args) - 1]
+                val = n.args.pop()
+                n.keywords.insert(0, ast.keyword(arg=pname, value=val))
+                return True
+    return False
+
+SIGS = {}
+
 def t_kwargs(fn):
     """f(a, b) -> f(a, b) with the last positional argument of self.method calls turned into a keyword - needs signatures; skipped"""
     return False
 
-T = {"docstring": t_docstring, "noop": t_noop, "tempreturn": t_tempreturn, "else": t_else, "annassign": t_annassign}
+T = {"docstring": t_docstring, "noop": t_noop, "tempreturn": t_tempreturn, "else": t_else, "annassign": t_annassign,
+     "invert": t_invert, "ifexp": t_ifexp, "splitand": t_splitand, "guard": t_guard, "kwcall": t_kwonly_call}
 
 def work(v):
     rel, fname, lineno, tname = v
     repo = Repo()
     mod = [m for m in repo.modules.values() if m.relpath == rel][0]
+    if not SIGS:
+        for m in repo.modules.values():
+            for f in ast.walk(ast.parse(m.source)):
+                if isinstance(f, (ast.FunctionDef, ast.AsyncFunctionDef)) and not f.args.vararg:
+                    SIGS.setdefault(f.name, set()).add(tuple(a.arg for a in f.args.posonlyargs + f.args.args))
     tree = ast.parse(mod.source)
     ok = False
     for f in ast.walk(tree):
